@@ -141,7 +141,8 @@ def run(chk):
             if r["status"] in ("panic", "abort", "hang"):
                 continue
             if r["status"] == "error":
-                raise ToolError(f"doc case rejected: {r['errors']}\n{src}")
+                chk.refused(f"{lang}/{style}", f"{lang}: documented program rejected ({style} style, {d['doc']}): {str(r['errors'])[:200]}", {"doc": d["doc"], "style": style, "pos": pos, "lang": lang})
+                continue
             text = r["text"]      # available for ok and unreadable alike
             events.append({"lang": lang, "stream": symbols(lang, text)})
             meta.append((lang, style, pos, d, text))
